@@ -115,9 +115,15 @@ class WB:
             if qualify == 'full':
                 return '%s!%s' % (self.sheet_id(e[1][0]), body)
             if e[1][0] != cur_sheet:
+                book = getattr(self, '_cur_book', None)
+                if book is not None and self.sheets[e[1][0]][0] != book:
+                    return "'[%s]%s'!%s" % (self.sheets[e[1][0]][0], self.sheets[e[1][0]][1], body)   # another workbook
                 return '%s!%s' % (self.sheets[e[1][0]][1], body)
             return body
         if k == 'name':
+            book = getattr(self, '_cur_book', None)
+            if qualify != 'full' and book is not None and self.names[e[1]][0] != book:
+                return "'[%s]'!%s" % (self.names[e[1]][0], e[1])
             return "'[%s]'!%s" % (self.names[e[1]][0], e[1]) if qualify == 'full' else e[1]
         if k == 'bin':
             return '(%s%s%s)' % (self.spell(e[2], qualify, cur_sheet), e[1], self.spell(e[3], qualify, cur_sheet))
@@ -170,7 +176,7 @@ class WB:
         return collections.OrderedDict(items)
 
     def to_xlsx(self, dirpath):
-        """one .xlsx per book (references between books are not written: single-book workbooks only)"""
+        """one .xlsx per book; a reference into another book is written as '[book]Sheet'!A1"""
         import openpyxl, os
         from openpyxl.workbook.defined_name import DefinedName
         from openpyxl.worksheet.formula import ArrayFormula
@@ -179,6 +185,7 @@ class WB:
             books.setdefault(b, []).append((i, sh))
         paths = []
         for b, shs in books.items():
+            self._cur_book = b
             wb = openpyxl.Workbook()
             wb.remove(wb.active)
             wss = {i: wb.create_sheet(sh) for i, sh in shs}
@@ -206,6 +213,7 @@ class WB:
             p = os.path.join(dirpath, b)
             wb.save(p)
             paths.append(p)
+        self._cur_book = None
         return paths
 
     def wire_expr(self, e):
@@ -413,10 +421,10 @@ def generate(rnd, n_books=1, n_sheets=2, n_const=14, n_formula=12, rows=6, cols=
         cand = [a for a in free if a not in never and a not in spill_cells and (a[0], a[2]) != col_reserved]
         if not cand:
             break
-        if arrays and n_arr < 3 and rnd.random() < 0.22:
+        if arrays and n_arr < 3 and rnd.random() < 0.3:
             # an array formula over a free rectangle
             a = rnd.choice(cand)
-            R, C = rnd.choice([(2, 1), (3, 1), (1, 2), (2, 2), (1, 3), (2, 2), (2, 3), (1, 2)])
+            R, C = rnd.choice([(2, 1), (3, 1), (1, 2), (2, 2), (1, 3), (2, 2), (2, 3), (1, 2), (3, 1), (1, 3), (3, 2)])
             rect = [(a[0], a[1] + i_, a[2] + j_) for i_ in range(R) for j_ in range(C)]
             if all(x in cand for x in rect) and a[1] + R - 1 <= rows and a[2] + C - 1 <= cols:
                 src = None
@@ -426,6 +434,21 @@ def generate(rnd, n_books=1, n_sheets=2, n_const=14, n_formula=12, rows=6, cols=
                     if (h, w) in ((R, C), (R, 1), (1, C), (1, 1)) and not any((rg[0], i_, j_) in rect for i_ in range(rg[1], rg[2] + 1) for j_ in range(rg[3], rg[4] + 1)):
                         src = rg
                         break
+                if (src is None and rnd.random() < 0.7) or rnd.random() < 0.35:
+                    src = 'const'
+                if src == 'const':
+                    # a constant array smaller than (or equal to) the destination: folded when the cell is compiled,
+                    # the cells it does not reach are filled by the fit rule
+                    r0 = 2 if R == 3 and rnd.random() < 0.7 else rnd.randint(1, R)
+                    c0 = 2 if C == 3 and rnd.random() < 0.7 else rnd.randint(1, C)
+                    rows_ = [[rnd.choice([1, 2, 3, 5, 0.5, 7]) for _ in range(c0)] for _ in range(r0)]
+                    e = ('arr', rows_) if rnd.random() < 0.5 else ('call', 'ISERROR', [('bin', '/', ('arr', rows_), ('lit', rnd.choice([0, 1])))])
+                    for x in rect:
+                        free.remove(x); spill_cells.add(x)
+                    wb.cells[a] = ('a', R, C, e)
+                    defined.extend(rect)
+                    n_arr += 1
+                    continue
                 if src is not None:
                     e = ('bin', rnd.choice(['+', '*', '-', '>', '&']), ('ref', src), ('lit', rnd.choice([1, 2, 10, 0.5])))
                     if rnd.random() < 0.3:
